@@ -102,8 +102,6 @@ theorem step_holder (io : Bool) (i : Nat) (s s' : Shared) (l l' : Local)
   all_goals (try simp only [Option.some.injEq, Prod.mk.injEq] at hs)
   all_goals (try (obtain ⟨rfl, rfl⟩ := hs))
   all_goals (simp_all [alternates_append])
-  obtain ⟨h1, h2⟩ := hg
-  rw [← h1]; exact h2
 
 /-- taking the lock -/
 theorem step_start (io : Bool) (i : Nat) (s s' : Shared) (l l' : Local) (hpc : l.pc = .start)
